@@ -43,6 +43,7 @@ def configs(tier):
         for K in _subsets(KEYS):
             for fl in ('py', 'np', 'mixed'):
                 cfgs.append(dict(group='norm', base=base, K=''.join(K), flavor=fl))
+        cfgs.append(dict(group='norm_binary64', base=base, _cost=300))
         if tier == 'quick':
             cfgs.append(dict(group='history', base=base, keys='ab', T=3, _cost=64))
         else:
@@ -191,3 +192,45 @@ def _history(env, cfg):
     if ref:
         k0 = sorted(ref)[0]
         env.canary('history_shifted', eq(mvt.get()[k0], ref[k0][0] + 1))
+
+
+def _norm_binary64(env, cfg):
+    """bit-precise binary64: for two keys whose sum is non-zero (possibly subnormal) and whose values are not larger than
+    2^20 times the sum, the normalised view is finite"""
+    import z3
+    from symx.fp64 import F64Sym, F64
+    if env.mode != 'sym':
+        import numpy as np
+        base = WelfordTracker() if cfg['base'] == 'welford' else ExponentialSmoothingTracker(0.5)
+        bad = []
+        for t in (5e-324, 1e-320, 2.5e-310, 1e-308):
+            for typ in (float, np.float64):
+                mvt = MultiValueTracker(base)
+                mvt.update({'a': typ(t), 'b': typ(3 * t)})
+                for k_ in mvt.tracked_value:
+                    mvt.tracked_value[k_].tracked_value = typ(t if k_ == 'a' else 3 * t)
+                with np.errstate(all='ignore'):
+                    out = mvt.get_normalized()
+                if any(is_nonfinite(v) for v in out.values()):
+                    bad.append((t, out))
+        env.claim('finite_for_every_nonzero_sum_including_subnormals', not bad, detail=str(bad[:1]))
+        return
+    base = WelfordTracker() if cfg['base'] == 'welford' else ExponentialSmoothingTracker(0.5)
+    mvt = MultiValueTracker(base)
+    vals = {'a': F64Sym.var('b64_a'), 'b': F64Sym.var('b64_b')}
+    for k_, v in vals.items():
+        env.assume(v.is_finite())
+        tr = copy.deepcopy(mvt._base_tracker)
+        tr.tracked_value, tr.N = v, 1
+        mvt.tracked_value[k_] = tr
+        mvt._tracked_keys.add(k_)
+    out = guarded(env, 'get_normalized', mvt.get_normalized)
+    tot = vals['a'] + vals['b']
+    tot2 = vals['b'] + vals['a']
+    moderate = z3.And(tot.is_finite().t, z3.Not(z3.fpIsZero(tot.t)),
+                      *[z3.fpLEQ(z3.fpAbs(v.t), z3.fpMul(z3.RNE(), z3.fpAbs(tot.t), z3.FPVal(2.0 ** 20, F64))) for v in vals.values()])
+    for k_ in vals:
+        o = out[k_]
+        if isinstance(o, F64Sym):
+            env.claim('finite_for_every_nonzero_sum_including_subnormals', z3.Implies(moderate, o.is_finite().t))
+    _ = tot2
